@@ -18,6 +18,13 @@ Theorem C19_admitted_upper_bound : forall t pre now len rest,
 Proof. exact admitted_upper_bound. Qed.
 Print Assumptions C19_admitted_upper_bound.
 
+(* the monitor's clause 0 agrees with this: in lockstep with the bucket (usync: H + tokens <= burst) it never
+   rejects the Model's own verdicts, for every arrival sequence *)
+Theorem C19_upper_clause_never_rejects_model : forall pks t c,
+  wf t -> rate t <> 0 -> usync t c -> mono (last t) pks -> judge_run c t pks <> Some 0.
+Proof. exact upper_clause_never_rejects_model. Qed.
+Print Assumptions C19_upper_clause_never_rejects_model.
+
 (* ---- clause 2: rate 0 = unlimited — FULL, for the bucket and for the whole TC program *)
 Theorem C19_rate_zero_unlimited : forall pks t, rate t = 0 ->
   run t pks = (t, fold_right (fun p a => snd p + a) 0 pks).
